@@ -70,6 +70,8 @@ Pfx(X, seq, p) == IF seq = <<>> \/ XTok(X, p) = "" \/ XTok(X, p) # Head(seq) THE
 
 RECURSIVE XAdvK(_, _, _, _)
 XAdvK(X, p, k, n) == IF k = 0 \/ p >= X.hi THEN <<p, n>> ELSE XAdvK(X, XNxt(X, p), k - 1, n + 1)
+RECURSIVE XSkipWs(_, _)
+XSkipWs(X, p) == IF XTok(X, p) \in ClsWs THEN XSkipWs(X, p + 1) ELSE p
 RECURSIVE D(_, _, _, _, _)
 RECURSIVE DPratt(_, _, _, _, _, _)
 RECURSIVE DPrattLoop(_, _, _, _, _, _, _, _)
@@ -279,6 +281,17 @@ D(g, X, p, c, env) ==
          LET a == XAdvK(X, p, g[2], 0) IN
          IF a[2] = g[2] /\ g[3] THEN R(TRUE, a[1], VC(g[2]), <<>>, {})
          ELSE Fail({EvUser(X, p, p, a[1], "cu")})
+    [] o = "newline" ->
+         IF t = "R" THEN R(TRUE, IF XTok(X, p + 1) = "N" THEN p + 2 ELSE p + 1, VU, <<>>, {})
+         ELSE IF t \in ClsNewline THEN R(TRUE, p + 1, VU, <<>>, {})
+         ELSE Fail({EvEF(X, p, {"x:newline"}, t, p, IF t = "" THEN p ELSE p + 1)})
+    [] o = "text" -> D(g[4], X, p, c, env)
+    [] o = "sleq" ->
+         IF ~un.ok \/ SubSeq(X.toks, p + 1, un.end) = g[3] THEN un
+         ELSE Fail(un.fl \cup {[pos |-> p, rd |-> "start", err |-> LET sp == XSpan(X, p, un.end) IN MkErr(sp[1], sp[2], "", {"x:keyword"}, "", <<>>)],
+                               [pos |-> un.end, rd |-> "end", err |-> LET sp == XSpan(X, p, un.end) IN MkErr(sp[1], sp[2], "", {"x:keyword"}, "", <<>>)]})
+    [] o = "tpadded" ->
+         LET r == D(g[2], X, XSkipWs(X, p), c, env) IN IF r.ok THEN [r EXCEPT !.end = XSkipWs(X, @)] ELSE r
     \* a group token yields its inner input
     [] o = "tree" -> one(t = "(", <<"In", p + 1, XNxt(X, p) - 1>>, {"else"})
     \* C16: a.nested_in(b): b yields the inner input; a must match ALL of it (and nothing else:
@@ -403,4 +416,26 @@ D(g, X, p, c, env) ==
                           [] Op(s) = "retry" -> DRetry(g[2], s[2], s[3], X, p, c, env)
               IN IF rs.ok THEN [rs EXCEPT !.em = Append(@, RecMark), !.fl = un.fl \cup @]
                  ELSE Fail(un.fl)
+---------------------------------------------------------------------------
+(* C14: the documented languages of the text parsers, written from the documentation and not  *)
+(* from their construction: TextMatch(name, arg, w) is the number of tokens of w the parser    *)
+(* matches at its start, -1 if it does not match.                                              *)
+RECURSIVE RunLen(_, _)
+RunLen(cls, w) == IF w # <<>> /\ InClass(cls, Head(w)) THEN 1 + RunLen(cls, Tail(w)) ELSE 0
+IdentLen(start, cont, w) == IF w # <<>> /\ InClass(start, Head(w)) THEN 1 + RunLen(cont, Tail(w)) ELSE -1
+TextMatch(name, arg, w) ==
+  CASE name = "ws" -> RunLen("ws", w)                              \* any run of whitespace, possibly empty
+    [] name = "iws" -> RunLen("iws", w)
+    [] name = "nl" -> IF w = <<>> THEN -1                           \* one line terminator, CR LF counting as one
+                      ELSE IF Len(w) >= 2 /\ w[1] = "R" /\ w[2] = "N" THEN 2
+                      ELSE IF w[1] \in ClsNewline THEN 1 ELSE -1
+    [] name = "digits" -> IF RunLen("dig" \o arg, w) >= 1 THEN RunLen("dig" \o arg, w) ELSE -1
+    [] name = "int" ->                                              \* a digit string without superfluous leading zero
+         IF w = <<>> THEN -1
+         ELSE IF w[1] = "0" THEN 1
+         ELSE IF InClass("dig" \o arg, w[1]) THEN 1 + RunLen("dig" \o arg, Tail(w)) ELSE -1
+    [] name = "aident" -> IdentLen("aidstart", "aidcont", w)
+    [] name = "uident" -> IdentLen("uidstart", "uidcont", w)
+    [] name = "akw" -> IF IdentLen("aidstart", "aidcont", w) = Len(arg) /\ SubSeq(w, 1, Len(arg)) = arg THEN Len(arg) ELSE -1
+    [] name = "ukw" -> IF IdentLen("uidstart", "uidcont", w) = Len(arg) /\ SubSeq(w, 1, Len(arg)) = arg THEN Len(arg) ELSE -1
 =============================================================================
